@@ -124,6 +124,11 @@ func runC03(p *chk.Prog, r *chk.Report) {
 	// re-adoption judges sharing with the same symmetric test that admitted the co-tenants: a holder is evicted on its
 	// next sync when a newcomer was admitted by a laxer comparison than the one the holder is then judged by
 	c01ShareOK(p, r)
+	// ... with every check of the first assignment (SHARE-BODY) and with the Service's own keys (ARGS), both shared with
+	// C01: a re-adoption that skips the port scan, or judges by another key than the allocation did, keeps a set that
+	// is no longer admissible or drops one that is
+	c01ShareBody(p, r)
+	c01Args(p, r)
 	// a co-tenant that leaves must not take the address's sharing key with it (KEY-LIFETIME, shared with C01): the
 	// remaining holder is evicted on its next sync by whoever was allocated the "free" address in between
 	c01KeyLifetime(p, r)
@@ -581,6 +586,32 @@ func c03Write(p *chk.Prog, r *chk.Report) {
 		return true
 	})
 	x.Check("SetBalancer:toWrite-is-observed-plus-status-annotations", f.Pos(), good, "", "the comparison object is not the observed Service with only Status/Annotations taken from the converged copy")
+	// the converse: what convergeBalancer changed is written, whichever of the two it is - the addresses (status) or the
+	// pool annotation. A decision that looks at the status alone leaves a refreshed annotation unwritten.
+	for _, fld := range []string{"Status", "Annotations"} {
+		fld := fld
+		same := chk.GSame(g.GPat(true, "reflect.DeepEqual(RO."+fld+", S."+fld+")", chk.H("RO", ro), chk.H("S", isSvc)),
+			g.GPat(true, "reflect.DeepEqual(S."+fld+", RO."+fld+")", chk.H("RO", ro), chk.H("S", isSvc)))
+		okConv := false
+		if direct {
+			// the write is decided on the fields themselves: some branch taken when this field differs always writes
+			es := g.EdgesImplying(chk.GNot(same))
+			for _, e := range es {
+				if w := g.BranchAlways(e, func(n ast.Node) bool { return n == u.Top }); !w.Found {
+					okConv = true
+				}
+			}
+		} else if tw != nil {
+			// the write is decided on the comparison object: when this field differs it has been copied into it by the
+			// time the object is compared
+			isCopy := f.IsAssignPat("TW."+fld, "S."+fld, chk.H("TW", f.IsObj(tw)), chk.H("S", isSvc))
+			isTest := f.ContainsPat("reflect.DeepEqual(TW, RO)", chk.H("TW", f.IsObj(tw)), chk.H("RO", ro))
+			w := (&chk.Walk{G: g, Stop: isCopy, Hit: isTest,
+				Cut: func(b *cfgBlock, k int) bool { return g.EdgeImplies(b, k, same) }}).Run()
+			okConv = !w.Found && len(g.Find(isCopy)) > 0
+		}
+		x.Check("SetBalancer:write:changed-"+strings.ToLower(fld)+"-is-written", u.Pos(), okConv, "", "a Service whose "+fld+" convergeBalancer changed can be acknowledged without UpdateStatus (the write is decided without looking at that field): the allocator's decision - the address, or the pool annotation that names its owner - never reaches the API object")
+	}
 }
 
 // familyPairRule (C03, shared with C02): a pair of addresses is dual-stack exactly when the two differ in family,
